@@ -55,6 +55,23 @@ func main() {
 				}
 			}
 		}
+		// the built-in @skip / @include (if: Boolean!): every spelling that fits their one argument
+		for _, site := range []string{"skip", "include"} {
+			bt := NN(N("Boolean"))
+			for _, v := range candidates(bt, true) {
+				for _, c := range spellings(bt, v, site) {
+					if len(c.ArgDefs) != 1 || c.ArgDefs[0].T.String() != "Boolean!" || c.ArgDefs[0].Def != nil {
+						continue
+					}
+					c := c
+					c.ArgDefs[0].Name = "if"
+					for i := range c.Args {
+						c.Args[i].Name = "if"
+					}
+					h.Case(func(*rng.R) sexp.Node { return c.run() })
+				}
+			}
+		}
 		// random part
 		n := 6000
 		if h.Thorough() {
